@@ -382,12 +382,6 @@ def parseKvs (s : String) : Option (List (Val × Val)) :=
   | '[' :: r => (match pKvsIn r true with | some (k, []) => some k | _ => none)
   | _ => none
 
-/-- the `db_id` of a user value (first `id` field at top level) -/
-def uvalId : UValList → Option Int
-  | .nil => none
-  | .cons (.id i) _ => i
-  | .cons _ t => uvalId t
-
 structure DeriveState where
   db : Db := {}
   types : List (Int × TypeDesc) := []
